@@ -349,13 +349,20 @@ def thread_ops():
     }
 
 
+def _alone(f):
+    try:
+        return ("ok", f())
+    except Exception as e:  # noqa: BLE001 - the sequential sweeps judge refusals; here only agreement matters
+        return ("exc", type(e).__name__, str(e))
+
+
 def explore_threads(names, first, acc):
     """Two helper calls as real threads under the cooperative scheduler (line events inside pyubx2 are the
     scheduling points), every schedule with at most one preemption: each call must return what it returns alone."""
     from mc import threads
     ops = thread_ops()
     fns = [ops[n] for n in names]
-    want = [("ok", f()) for f in fns]
+    want = [_alone(f) for f in fns]
 
     def run(ch):
         return threads.Scheduler(fns, ch, 1).run()
@@ -377,7 +384,7 @@ def replay_threads(case):
     from mc import threads
     ops = thread_ops()
     fns = [ops[n] for n in case["program"]]
-    want = [("ok", f()) for f in fns]
+    want = [_alone(f) for f in fns]
     res = threads.Scheduler(fns, engine.Chooser(case["choices"], None), 1).run()
     return [(f"helper_result_differs_when_another_helper_runs_concurrently|{case['program'][i]}|with={case['program'][1 - i]}", f"{g!r:.120}")
             for i, (g, w) in enumerate(zip(res, want)) if g != w]
